@@ -341,11 +341,20 @@ theorem readTableRows_nocols (dec : Dec) (pages : List (List RowV)) (hwf : ∀ p
   congr 1
   rw [map_const', map_const', hlen]
 
+/-- without recorded fast defaults a row reads as its own bytes give it -/
+theorem fillMissing_nil (val : Spec.Val) : ∀ (attrs : List AttrRow) (n : Nat) (row : DRow), fillMissing val [] attrs n row = row
+  | [], _, _ => by simp [fillMissing]
+  | _ :: _, _, [] => by simp [fillMissing]
+  | a :: as, n, kv :: row => by
+    simp only [fillMissing, List.lookup_nil]
+    rw [fillMissing_nil val as (n - 1) row]
+
 /-- the rows the specification expects for relation `r` -/
 def specRows (val : Spec.Val) (d : DbContent) (o : Options) (r : ClassRow) : List DRow :=
   if o.listOnly then []
   else match d.heaps.lookup r.filenode with
-    | some pages => (liveRows pages ((userAttrs d.att r.oid).map attrCol)).map (storedRow val d.detoast ((userAttrs d.att r.oid).map attrCol))
+    | some pages => (liveRows pages ((userAttrs d.att r.oid).map attrCol)).map fun row =>
+        fillMissing val d.missing (userAttrs d.att r.oid) row.natts (storedRow val d.detoast ((userAttrs d.att r.oid).map attrCol) row)
     | none => []
 
 def specCols (d : DbContent) (r : ClassRow) : List ColumnInfo :=
@@ -387,9 +396,12 @@ theorem dumpTable_spec (dec : Dec) (l : Layout) (d : DbContent) (o : Options) (r
     (hok : ∀ pages, d.heaps.lookup r.filenode = some pages → o.listOnly = false → pages ≠ [] → RelReadable d r)
     (hinl : ∀ pages, d.heaps.lookup r.filenode = some pages → o.listOnly = false →
       ∀ pg ∈ pages, ∀ row ∈ pg, row.vals.all inlineDatum = true)
+    (hmiss : d.missing = [])
     (t : TableDump)
     (h : dumpTable (readRows dec) r.filenode (infoOfRel r) ((userAttrs d.att r.oid).map attrInfoOf) (some rd) o = .ok t) :
     normTable t = expectedTable (varlenaVal dec) d o r := by
+  have hfm : ∀ attrs n row, fillMissing (varlenaVal dec) d.missing attrs n row = row := by
+    rw [hmiss]; exact fillMissing_nil _
   have halign : ∀ a ∈ userAttrs d.att r.oid, a.align = 1 ∨ a.align = 2 ∨ a.align = 4 ∨ a.align = 8 := by
     intro a ha
     have ha' : a ∈ d.att.live := (mem_filter.mp ((mem_sortAttrs a _).mp ha)).1
@@ -452,7 +464,7 @@ theorem dumpTable_spec (dec : Dec) (l : Layout) (d : DbContent) (o : Options) (r
             simp only [hrr, ok_bind, pure_eq_ok] at h
             injection h with h; subst h
             refine table_eq r hkind _ _ rows _ hcols ?_
-            simp only [specRows, hl, hlk, Bool.false_eq_true, if_false]
+            simp only [specRows, hl, hlk, Bool.false_eq_true, if_false, hfm]
             by_cases hempty : userAttrs d.att r.oid = []
             · rw [hempty] at hrr ⊢
               simp only [map_nil] at hrr ⊢
@@ -544,7 +556,7 @@ of a well-formed database and a file reader that serves the encoded heaps return
 which, in which order, with which columns and rows. -/
 theorem dumpDatabase_spec (dec : Dec) (hd : CatDec dec) (π : MapOrder TableInfo) (hπ : ∀ l, π l ~ l) (l : Layout)
     (d : DbContent) (o : Options) (db : DbRow) (rd : FileReader) (hwf : d.WF l) (hs : SchemaOK l d.att o.pgVersion)
-    (hasc : GoCase.FilterStable o d.cls.live) (hA02 : A02Free d o)
+    (hasc : GoCase.FilterStable o d.cls.live) (hA02 : A02Free d o) (hmiss : d.missing = [])
     (hreader : ∀ r ∈ d.cls.live, selectedRel o r = true → o.listOnly = false →
       rd r.filenode = (d.heaps.lookup r.filenode).map (encRowPages (colsOfFilenode d r.filenode)))
     (hok : ∀ r ∈ d.cls.live, selectedRel o r = true → ∀ pages, d.heaps.lookup r.filenode = some pages →
@@ -560,7 +572,7 @@ theorem dumpDatabase_spec (dec : Dec) (hd : CatDec dec) (π : MapOrder TableInfo
   have hmem := mem_filter.mp ((sortBy_perm _ _).subset hr)
   obtain ⟨hk114, hfn0⟩ := selectedRel_kind o r hmem.2
   exact dumpTable_spec dec l d o r rd hmem.1 hk114 hfn0 hwf (hreader r hmem.1 hmem.2) (hok r hmem.1 hmem.2)
-    (fun pages hlk hl => hA02 hl r hmem.1 hmem.2 pages hlk) t ht'
+    (fun pages hlk hl => hA02 hl r hmem.1 hmem.2 pages hlk) hmiss t ht'
 
 /-- the identity and the columns of a dumped table, type names the specification does not have blanked -/
 def tableCols (t : TableDump) : (Nat × Bytes × Nat × Bytes) × List ColumnInfo := (tableKey t, t.columns.map normCol)
@@ -690,6 +702,7 @@ theorem dumpDb_spec (dec : Dec) (hd : CatDec dec) (π : MapOrder TableInfo) (hπ
     (fs : Bytes → Option Bytes) (hwf : c.WF) (htree : TreeOf c fs) (db : DbRow)
     (htpl : isTemplateName db.name = db.isTemplate)
     (hdump : selectedDb o db = true → ∀ d, c.content.lookup db.oid = some d → DbDumpable c.layout d o ∧ A02Free d o)
+    (hnm : c.NoFastDefaults)
     (y : Option DatabaseDump) (h : dumpDb (readRows dec) π fs o ⟨db.oid, db.name⟩ = .ok y) :
     y.map normDb = if selectedDb o db = true then (c.content.lookup db.oid).map (expectedDb (varlenaVal dec) o db) else none := by
   rcases dumpDb_cases _ π fs o db htpl y h with ⟨hsel, hlen, ts, hdf, rfl⟩ | ⟨hcase, rfl⟩
@@ -702,6 +715,7 @@ theorem dumpDb_spec (dec : Dec) (hd : CatDec dec) (π : MapOrder TableInfo) (hπ
       rw [htree.cls db.oid d hlk, htree.att db.oid d hlk] at hdf
       simp only [Option.getD_some] at hdf
       have := dumpDatabase_spec dec hd π hπ c.layout d o db (fun fn => fs (basePath db.oid fn)) hdwf hdd.schema hdd.ascii hA02
+        (hnm (db.oid, d) (lookup_mem_pair _ _ _ hlk))
         (fun r hr hs _ => by
           obtain ⟨h1, h2, h3⟩ := hdd.files r hr hs
           exact htree.heap db.oid d hlk r.filenode h1 h2 h3)
@@ -756,6 +770,7 @@ theorem dumpDataDir_spec (dec : Dec) (hd : CatDec dec) (π : MapOrder TableInfo)
     (fs : Bytes → Option Bytes) (hwf : c.WF) (htree : TreeOf c fs) (htpl : TemplatesByName c)
     (hdump : ∀ db ∈ c.dbs.live, selectedDb o db = true → ∀ d, c.content.lookup db.oid = some d →
       DbDumpable c.layout d o ∧ A02Free d o)
+    (hnm : c.NoFastDefaults)
     (r : DumpResult) (h : dumpDataDir (readRows dec) π fs o = .ok (some r)) :
     r.map normDb = expectedDump (varlenaVal dec) c o := by
   unfold dumpDataDir at h
@@ -773,7 +788,7 @@ theorem dumpDataDir_spec (dec : Dec) (hd : CatDec dec) (π : MapOrder TableInfo)
     rw [← PgVerif.Proofs.Rows.collectM_map (fun d : DbRow => (⟨d.oid, d.name⟩ : DatabaseInfo))] at hc
     rw [expectedDump_eq]
     exact collectM_filterMap_spec _ normDb _ c.dbs.live r' hc
-      (fun db hdb y hy => dumpDb_spec dec hd π hπ c o fs hwf htree db (htpl db hdb) (hdump db hdb) y hy)
+      (fun db hdb y hy => dumpDb_spec dec hd π hπ c o fs hwf htree db (htpl db hdb) (hdump db hdb) hnm y hy)
 
 
 
